@@ -54,6 +54,7 @@ def lower(cfile, defines=(), extra_flags=(), tag=''):
     cc = 'clang++-14' if cfile.endswith('.cpp') else 'clang-14'
     if cc == 'clang++-14' and not os.path.exists('/usr/bin/clang++-14'):
         cc = 'clang-14'
+    defines = list(defines) + os.environ.get('VF_EXTRA_DEFINES', '').split()      # configuration arm selected by an aggregating check (C39)
     cmd = [cc, '-O0', '-Xclang', '-disable-O0-optnone', '-DNDEBUG', '-w', '-S', '-emit-llvm', '-fno-discard-value-names',
            '-I' + PYINC] + ['-D' + d for d in defines] + list(extra_flags) + [cfile, '-o', ll0]
     _run(cmd)
@@ -66,6 +67,7 @@ def native(cfile, defines=(), extra_flags=(), tag='', sanitize=False):
     """Build the translation unit as a shared object (importable extension module / ctypes target)."""
     base = os.path.splitext(cfile)[0]
     so = base + (('_' + tag) if tag else '') + EXT_SUFFIX
+    defines = list(defines) + os.environ.get('VF_EXTRA_DEFINES', '').split()
     cmd = ['gcc', '-shared', '-fPIC', '-O1', '-fwrapv', '-w', '-I' + PYINC] + ['-D' + d for d in defines] + list(extra_flags)
     if sanitize:
         cmd = ['gcc', '-shared', '-fPIC', '-O1', '-w', '-fsanitize=undefined', '-fno-sanitize-recover=undefined',
